@@ -388,16 +388,16 @@ harness('h_pairs::c07_offsets_from_ip_v6', ['C07', 'C03'], 'bounded (all inputs 
 harness('h_pairs::c07_offsets_from_ethernet_v4', ['C07', 'C03'], 'bounded (Ethernet II + IPv4, all inputs 14..=54 B, UDP/TCP)', 'SlicedPacket::from_ethernet: offsets count from the start of the frame (+14)', tier='thorough', bound='N=54, unwind 4', timeout=1800)
 
 # ---- struct walk: bounded check of the assumed contract of Ipv6Extensions::from_slice (spec swalk) ------------------------------------
-harness('h_pairs::p_ext_struct_walk', ['C04', 'C07'], 'bounded (all chains <= 24 B, all first-header values, <= 3 headers, unwind 5)', 'Ipv6Extensions::from_slice == executable mirror of the struct walk spec swalk (verdict, consumed, next, fragmented, every error field); this is the check of the contract Verus assumes for that function', tier='thorough', bound='24 B', timeout=3600)
+harness('h_pairs::p_ext_struct_walk', ['C04', 'C07'], 'bounded (all chains <= 24 B, all first-header values, <= 3 headers, unwind 5)', 'Ipv6Extensions::from_slice == executable mirror of the struct walk spec swalk (verdict, consumed, next, fragmented, every error field); this is the check of the contract Verus assumes for that function', tier='thorough', bound='24 B', timeout=3600, heavy=True)
 
 # ---- C04 slim whole-packet comparisons (verdict, transport kind, delimiting header fields, payload byte range) ---------------------------
-harness('h_pairs::c04_slim_ip_v4_udp', ['C04', 'C02'], 'bounded (all inputs 1..=40 B, b[0]==0x45, UDP)', 'PacketHeaders::from_ip_slice vs SlicedPacket::from_ip: same error value, same transport kind, UDP fields, payload byte range', tier='quick', bound='N=40, unwind 4', timeout=1200)
-harness('h_pairs::c04_slim_ip_v4_tcp', ['C04'], 'bounded (all inputs 1..=44 B, b[0]==0x45, TCP)', 'same, TCP', tier='thorough', bound='N=44, unwind 4', timeout=1500)
-harness('h_pairs::c04_slim_ip_v6_udp', ['C04', 'C02'], 'bounded (all inputs 1..=56 B, b[0]==0x60, next header UDP, payload length symbolic incl. 0)', 'same, IPv6', tier='quick', bound='N=56, unwind 4', timeout=1200)
-harness('h_pairs::c04_lax_headers_vs_sliced_ip_v4_udp', ['C04', 'C05'], 'bounded (all inputs 1..=40 B, b[0]==0x45, UDP)', 'LaxPacketHeaders::from_ip vs LaxSlicedPacket::from_ip: same stop error, transport kind, UDP fields, payload byte range', tier='quick', bound='N=40, unwind 4', timeout=1200)
-harness('h_pairs::c04_lax_headers_vs_sliced_ip_v4_tcp', ['C04', 'C05'], 'bounded (all inputs 1..=44 B, b[0]==0x45, TCP)', 'same, TCP', tier='thorough', bound='N=44, unwind 4', timeout=1500)
-harness('h_pairs::c04_lax_headers_vs_sliced_ip_v6_udp', ['C04', 'C05'], 'bounded (all inputs 1..=56 B, b[0]==0x60, next header UDP)', 'same, IPv6', tier='thorough', bound='N=56, unwind 4', timeout=1500)
-harness('h_pairs::p_ext_struct_walk_lax', ['C04', 'C05', 'C07'], 'bounded (all chains <= 24 B, <= 3 headers, unwind 5)', 'Ipv6Extensions::from_slice_lax == reference struct walk up to its first fault, stop error == that fault (check of the assumed contract)', tier='thorough', bound='24 B', timeout=3600)
+harness('h_pairs::c04_slim_ip_v4_udp', ['C04', 'C02'], 'bounded (all inputs 1..=40 B, b[0]==0x45, UDP)', 'PacketHeaders::from_ip_slice vs SlicedPacket::from_ip: same error value, same transport kind, UDP fields, payload byte range', tier='quick', bound='N=40, unwind 4', timeout=1200, heavy=True)
+harness('h_pairs::c04_slim_ip_v4_tcp', ['C04'], 'bounded (all inputs 1..=44 B, b[0]==0x45, TCP)', 'same, TCP', tier='thorough', bound='N=44, unwind 4', timeout=1500, heavy=True)
+harness('h_pairs::c04_slim_ip_v6_udp', ['C04', 'C02'], 'bounded (all inputs 1..=56 B, b[0]==0x60, next header UDP, payload length symbolic incl. 0)', 'same, IPv6', tier='quick', bound='N=56, unwind 4', timeout=1200, heavy=True)
+harness('h_pairs::c04_lax_headers_vs_sliced_ip_v4_udp', ['C04', 'C05'], 'bounded (all inputs 1..=40 B, b[0]==0x45, UDP)', 'LaxPacketHeaders::from_ip vs LaxSlicedPacket::from_ip: same stop error, transport kind, UDP fields, payload byte range', tier='quick', bound='N=40, unwind 4', timeout=1200, heavy=True)
+harness('h_pairs::c04_lax_headers_vs_sliced_ip_v4_tcp', ['C04', 'C05'], 'bounded (all inputs 1..=44 B, b[0]==0x45, TCP)', 'same, TCP', tier='thorough', bound='N=44, unwind 4', timeout=1500, heavy=True)
+harness('h_pairs::c04_lax_headers_vs_sliced_ip_v6_udp', ['C04', 'C05'], 'bounded (all inputs 1..=56 B, b[0]==0x60, next header UDP)', 'same, IPv6', tier='thorough', bound='N=56, unwind 4', timeout=1500, heavy=True)
+harness('h_pairs::p_ext_struct_walk_lax', ['C04', 'C05', 'C07'], 'bounded (all chains <= 24 B, <= 3 headers, unwind 5)', 'Ipv6Extensions::from_slice_lax == reference struct walk up to its first fault, stop error == that fault (check of the assumed contract)', tier='thorough', bound='24 B', timeout=3600, heavy=True)
 
 # ---- C05 at the link-extension level ----------------------------------------------------------------------------------------------
 harness('h_pairs::c05_link_exts_macsec', ['C05'], 'bounded (all inputs <= 24 B behind ether type MACsec)', 'strict slicing Ok ==> lax slicing returns the same link extensions (kind, header bytes, payload bytes), no stop error, nothing incomplete', tier='thorough', bound='N=24, unwind 5', timeout=2400, heavy=True)
